@@ -79,8 +79,8 @@ def handle (j : Json) : R Json := do
     let slug := chars (← str j "slug")
     let key := chars (← str j "key")
     let ext := (opt j "ext").bind (fun x => x.getStr?.toOption) |>.map chars
-    pure (Json.mkObj [("data", jarr jstr (dataPath slug key ext)), ("run_info", jarr jstr (runInfoPath slug key)),
-                      ("log", jarr jstr (logPath slug key))])
+    pure (Json.mkObj [("data", jarr jstr (dataPath slug key ext)), ("run_info", jarr jstr (runInfoPath slug key ext)),
+                      ("log", jarr jstr (logPath slug key ext))])
   | _ => throw "bad_op"
 
 end Drv.Key
